@@ -139,3 +139,37 @@ def build_and_run(prop, sites, jobs, report, replay_fn=None, parallel=8):
                         f.write(out)
                     o.replay = p
         return scratch
+
+
+# ----------------------------------------------------------------------------- native replay (cfg(test) overlay)
+REPLAY_SITES = {
+    'wire': ('crates/anemo', 'src/network/wire.rs', 'wire_native.rs'),
+}
+
+
+def native_replay(prop, site, test_names, env=None, timeout=1500):
+    """run native #[test]s from /verif/replay against a scratch copy of /repo's working tree.
+    -> {test: 'pass'|'fail'|'error'}, log"""
+    name = f'replay-{prop}'
+    with locked(name):
+        scratch = sync_scratch(name)
+        cdir, src, f = REPLAY_SITES[site]
+        srcpath = os.path.join(scratch, cdir, src)
+        shutil.copy(os.path.join(VERIF, 'replay', f), os.path.join(os.path.dirname(srcpath), f'__verif_replay_{site}.rs'))
+        with open(srcpath, 'a') as fh:
+            fh.write(f'\n#[cfg(test)] #[path = "__verif_replay_{site}.rs"] mod __verif_replay_{site};\n')
+        tdir = os.path.join(CACHE, 'native-target')
+        res, logs = {}, ''
+        for t in test_names:
+            rc, out, wall = run(['cargo', 'test', '--offline', '-p', 'anemo', '--lib', t, '--', '--exact', '--nocapture',
+                                 f'network::wire::__verif_replay_{site}::{t}'] if False else
+                                ['cargo', 'test', '--offline', '-p', 'anemo', '--lib', t], cwd=scratch,
+                               env=dict(env or {}, CARGO_TARGET_DIR=tdir), timeout=timeout)
+            logs += out[-3000:]
+            if f'test network::wire::__verif_replay_{site}::{t} ... ok' in out:
+                res[t] = 'pass'
+            elif f'test network::wire::__verif_replay_{site}::{t} ... FAILED' in out:
+                res[t] = 'fail'
+            else:
+                res[t] = 'error'
+        return res, logs
